@@ -69,7 +69,8 @@ theorem apply_attaches (cs : List (Change × Nat)) (theirHeads : List Nat) (max 
     (hroot : t.root.isSome = true) (hun : t.unatt = [])
     (hrm : ∀ x ∈ removedSet (cs.map toS) theirHeads, t.has x = true)
     (hbefore : ∀ c ∈ cs.map toS, ∀ p ∈ c.prevs, p ∉ (cs.map toS).map (·.id) → t.has p = true)
-    (hsnap : ∀ l1 p l2, cs = l1 ++ p :: l2 → t.has p.1.snap = true ∨ p.1.snap ∈ l1.map (·.1.id)) :
+    (hsnap : ∀ l1 p l2, cs = l1 ++ p :: l2 → t.has p.1.snap = true ∨ p.1.snap ∈ l1.map (·.1.id))
+    (hpar : ∀ p ∈ cs, p.1.prevs ≠ [] ∨ t.has p.1.id = true) :
     ∀ c ∈ flat (respond (cs.map toS) theirHeads max),
       ((respond (cs.map toS) theirHeads max).foldl (fun t b => (add t (b.changes.map (toC cs))).tree) t).has c.id = true := by
   have hfold : (respond (cs.map toS) theirHeads max).foldl (fun t b => (add t (b.changes.map (toC cs))).tree) t
@@ -115,6 +116,7 @@ theorem apply_attaches (cs : List (Change × Nat)) (theirHeads : List Nat) (max 
       · exact Or.inl h
       · exact Or.inl (hrm p (by simpa using h))
       · right; rw [hids]; exact h
+    refine ⟨?_, ?_⟩
     · have := keep_causal_held _ (cs.map toS) (fun d => [(toC cs d).snap]) (fun x => t.has x = true)
         (by
           intro m1 d m2 hd q hq
@@ -135,6 +137,9 @@ theorem apply_attaches (cs : List (Change × Nat)) (theirHeads : List Nat) (max 
       · exact Or.inl h
       · exact Or.inl (hrm _ (by simpa using h))
       · right; rw [hids]; exact h
+    · obtain ⟨pp, hpp, hpps⟩ := List.mem_map.mp hsm
+      rw [← hsc, ← hpps, hC pp hpp]
+      exact hpar pp hpp
   obtain ⟨_, _, _, a4, _, _⟩ := addSeq_causal _ t hun hroot hcaus
   intro c hc
   have := a4 (toC cs c) (by rw [flatten_map_changes]; exact List.mem_map.mpr ⟨c, hc, rfl⟩)
